@@ -52,6 +52,7 @@ func autoDetectPacketSize(r io.Reader) (packetSize int, err error) {
 
 	// Packet must start with a sync byte
 	if b[0] != syncByte {
+		discardPeeked(r, l)
 		err = ErrPacketMustStartWithASyncByte
 		return
 	}
@@ -81,8 +82,17 @@ func autoDetectPacketSize(r io.Reader) (packetSize int, err error) {
 			return
 		}
 	}
+	discardPeeked(r, l)
 	err = fmt.Errorf("astits: only one sync byte detected in first %d bytes", l)
 	return
+}
+
+// discardPeeked drops the bytes a failed detection has only peeked at (bufio.Reader), the way other readers have consumed
+// them, so that the next attempt looks at new bytes instead of failing on the same ones forever
+func discardPeeked(r io.Reader, n int) {
+	if br, ok := r.(*bufio.Reader); ok {
+		br.Discard(n)
+	}
 }
 
 // bufio.Reader can't be rewinded, which leads to packet loss on packet size autodetection
